@@ -61,8 +61,40 @@ def one(ctx: Ctx, cs, pname, over, core=True, max_sets=24):
         bounds = [0] + cuts + [len(src_lines)]
         frag_ranges = [(bounds[i], bounds[i + 1]) for i in range(len(bounds) - 1)]
         shared_frags = ['\n'.join(src_lines[a:b]) + '\n' for a, b in frag_ranges]   # one list object for two calls (modes 2 then 1)
-        for sep_mode in ((0, 2, 1) if ci % 4 == 0 else (0, 1)):
-            if sep_mode == 0:
+        modes = (0, 2, 1) if ci % 4 == 0 else (0, 1)
+        if ci % 5 == 1:
+            modes = modes + (3, 4)
+        for sep_mode in modes:
+            ref_alternatives = None
+            char_cuts = False
+            if sep_mode == 3:
+                # a separator that carries content: a reference record between the fragments.  "The joined text" is the fragments
+                # with the separator between them (kernpy also writes it in front of the first): either reading is accepted
+                sep = ['\n!!!system: break\n', '\n!! next page\n', '\n\n!!!YEM: x\n\n'][ci % 3]
+                frags = ['\n'.join(src_lines[a:b]) for a, b in frag_ranges]
+                kwargs = {'separator': sep}
+                ctx.mon('separators_with_content')
+                ref_alternatives = []
+                for joined in (sep.join(frags), sep + sep.join(frags)):
+                    dj, ej, xj = kpx.loads(joined)
+                    if xj is None:
+                        ref_alternatives.append(kpx.snapshot(dj))
+            elif sep_mode == 4:
+                # the empty separator with fragments cut at ANY line end after the header line (not only before a barline), the
+                # line end going to the earlier or to the later fragment.  (A cut inside a row is outside the domain: concat imports
+                # every prefix, and half a token - '*x' of '*xywh...' - need not be importable.)
+                sep = ''
+                hdr_end = x.index('\n', x.index('**')) + 1
+                ends = [i_ for i_ in range(hdr_end, len(x) - 1) if x[i_] == '\n']
+                if not ends:
+                    continue
+                pos = sorted({e_ + rng.choice([0, 1]) for e_ in rng.sample(ends, min(len(ends), rng.randint(1, 3)))})
+                b_ = [0] + pos + [len(x)]
+                frags = [x[b_[i]:b_[i + 1]] for i in range(len(b_) - 1)]
+                kwargs = {'separator': ''}
+                char_cuts = True
+                ctx.mon('cuts_at_arbitrary_line_ends')
+            elif sep_mode == 0:
                 sep = '\n'
                 frags = ['\n'.join(src_lines[a:b]) for a, b in frag_ranges]
                 # the newline separator in its three forms: omitted, explicit, and None (Optional[str]: None stands for the default)
@@ -82,6 +114,8 @@ def one(ctx: Ctx, cs, pname, over, core=True, max_sets=24):
             ctx.ev()
             ctx.mon('concat_calls')
             case = {'case_seed': cs, 'profile': pname, 'over': over, 'core': core, 'cuts': cuts, 'separator': sep, 'text': x}
+            if char_cuts:
+                case['fragments'] = frags
             try:
                 cd, idx = kp.concat(frags, **kwargs)
             except Exception as ex:
@@ -93,13 +127,24 @@ def one(ctx: Ctx, cs, pname, over, core=True, max_sets=24):
                               f'raised {type(ex).__name__}: {ex}', case)
                 continue
             # same document as importing the joined text
-            if kpx.snapshot(cd) != ref_snap:
+            if ref_alternatives is not None:
+                snap_cd = kpx.snapshot(cd)
+                if ref_alternatives and not any(snap_cd == r_ for r_ in ref_alternatives):
+                    ctx.violation('concat-differs-from-joined-import', f'cuts {cuts}, separator {sep!r}: the concatenated document differs '
+                                  f'from the import of the fragments joined with that separator (with or without a leading one)', case)
+                    continue
+            elif kpx.snapshot(cd) != ref_snap:
                 out, _ = kpx.dumps(cd)
                 ctx.violation('concat-differs-from-joined-import', f'cuts {cuts}: the concatenated document differs from loads(joined text) '
                               f'(exports equal: {out == full})', case)
                 continue
             if len(idx) != len(frags):
                 ctx.violation('index-count', f'{len(idx)} index pairs for {len(frags)} fragments', case)
+                continue
+            if char_cuts:
+                # fragments cut inside rows own no whole data lines: the document, the number of pairs and the last 'to' are judged
+                if idx[-1][1] != sc.M:
+                    ctx.violation('index-arithmetic', f'character cuts {pos}: indexes {idx} do not end at M={sc.M}', dict(case, char_cuts=pos))
                 continue
             ok = True
             for i in range(len(idx) - 1):
